@@ -9,7 +9,7 @@ CHECKS = {
              text="Every program in an exhaustively enumerated small grammar and in a seeded family of typed random programs is run on the real EVAL next to an independent reference interpreter; result, error class, ordered trace! effects and final globals must agree. Held on the programs executed, nothing more.",
              note="trusts the harness reference interpreter (refmal) as the reading of the mal guide + README; error message text is not compared", ref="5/C01"),
  "C02": dict(technique="snapshot-invariant monitor after every step of generated operation histories + Go race detector on shared-parent derivations",
-             text="After every step of generated histories of collection operations every earlier binding is re-read and compared with the snapshot taken when it was bound; a concurrent part derives from shared parents under -race; values seen through closures (captured before a re-binding let, collected over the iterations of a tail loop) must stay what was captured.",
+             text="After every step of generated histories of collection operations every earlier binding is re-read and compared with the snapshot taken when it was bound; a concurrent part derives from shared parents under -race; values seen through closures (captured before a re-binding let, collected over the iterations of a tail loop) must stay what was captured; a catch variable named like an existing binding must not overwrite it.",
              note="canonical comparison by the harness value model; race detector sees only executed interleavings", ref="5/C02"),
  "C03": dict(technique="reference-model monitor for try/catch/finally with identity checks on thrown values and Go errors",
              text="Generated nests of try/catch/finally with non-self-evaluating thrown objects, Go errors returned or panicked by harness builtins; result/error/trace compared with the reference interpreter, errors.Is and ErrorValue checked from Go; thrown objects include nil/false/empty values; builtins registered as plain Go function values fail and panic (also with Go runtime errors) inside try bodies.",
@@ -33,7 +33,7 @@ CHECKS = {
              text="Many short concurrent histories of deref/reset!/swap!/print on shared atoms, recorded at the EVAL boundary with unique written values, are checked against a sequential register model; hooks park a swap! mid-update (also: another writer lands, the parked evaluation is cancelled, the atom must stay usable); all under -race.",
              note="porcupine timeout = inconclusive; race detector sees executed interleavings only", ref="5/C09"),
  "C10": dict(technique="rule-based history checker (R1-R8) over recorded future histories + parked-hook windows + Go race detector",
-             text="Histories of deref/done?/cancelled?/cancel against bodies that complete, throw, sleep or ignore cancellation are recorded with timestamps and checked against eight rules; the narrow publication windows are made certain by parking goroutines at hook sites; futures whose creating evaluation context is ended after completion; chains of up to 1000 nested futures.",
+             text="Histories of deref/done?/cancelled?/cancel against bodies that complete, throw, sleep or ignore cancellation are recorded with timestamps and checked against eight rules; the narrow publication windows are made certain by parking goroutines at hook sites; futures whose creating evaluation context is ended after completion; chains of up to 1000 nested futures; two simultaneous cancels of a running future with hundreds of derived contexts.",
              note="real-time order from one monotonic clock at the client boundary", ref="5/C10"),
  "C11": dict(technique="solo-vs-concurrent relational monitor + Go race detector + atomicity readers on one shared environment",
              text="Generated programs run simultaneously on one preloaded environment under -race; each result must equal its solo result, readers must see globals unbound or complete, locals must never carry another thread's tag; call-local defs must not reach the shared environment; a shared memoized function and 16 simultaneous deep recursions must give their solo results.",
@@ -51,7 +51,7 @@ CHECKS = {
              text="Generated sources with placeholders and decoys and generated value maps are transported through AddPreamble/READWithPreamble and compared with an independent substitution done on the generator's AST; placeholders also in hash-map key position, names reused from earlier cases without a value, the name MODULE.",
              note="names over [A-Za-z0-9_-]; values are data", ref="5/C15"),
  "C16": dict(technique="bracket-stack model monitor using the REPL's own classifier through a verif-tagged export",
-             text="Every cut point of generated well-formed expressions is classified by a harness stack machine; READ must report the distinguished EOF error naming the innermost closer exactly when the prefix is completable by closers; surplus/mismatched closers and multiple expressions must be rejected with a non-multiline error; the real REPL loop (repl.Execute) is driven with typed multi-line entries with comments on inner lines and must print exactly one correct result per entry.",
+             text="Every cut point of generated well-formed expressions is classified by a harness stack machine; READ must report the distinguished EOF error naming the innermost closer exactly when the prefix is completable by closers; surplus/mismatched closers and multiple expressions must be rejected with a non-multiline error; six goroutines reading pooled texts concurrently must each get what the text gives alone; the real REPL loop (repl.Execute) is driven with typed multi-line entries with comments on inner lines and must print exactly one correct result per entry.",
              note="uses repl.VerifMultiLine (hook) so that the REPL's own classification is observed", ref="5/C16"),
  "C17": dict(technique="position monitor against generator-known line numbers of planted faults",
              text="Programs with exactly one planted fault are generated with known line spans; any positioned error must name the module of that reading (module names vary, the same text is read under another name first), lie within the top-level form and cover the fault's first line; faults evaluated at macro-expansion time included.",
@@ -63,7 +63,7 @@ CHECKS = {
              text="The same generated program is delivered through seven routes and several layouts; result, error class, final error text (positions removed) and trace must agree across all of them.",
              note="program value observed through a final trace! on routes whose return value is defined differently", ref="5/C19"),
  "C20": dict(technique="exhaustive contract table with entry monitors on harness-defined Go functions bound through lib/call",
-             text="An enumerated table of signatures x declared bounds x entry points x import-path shapes x argument lists is executed; entry monitors record whether and with what the Go function was entered; results, errors and panics are compared with the contract; function values sharing their code (closures of one literal, method values of one method) registered under one name in several environments must each be the one invoked.",
+             text="An enumerated table of signatures x declared bounds x entry points x import-path shapes x argument lists is executed; entry monitors record whether and with what the Go function was entered; results, errors and panics are compared with the contract; function values sharing their code (closures of one literal, method values of one method) registered under one name in several environments must each be the one invoked; four goroutines calling one binding concurrently must each see their own arguments and context.",
              note="signatures written out in the harness; declarations the binder rejects by design are excluded", ref="5/C20"),
 }
 
